@@ -123,3 +123,75 @@ pub async fn books_once(queue: &[u64], curr: &[u64], op: &str, worker_dead: bool
     p.sort();
     format!("queue={};curr={};pending={}", q.join("+"), c.join("+"), p.join("+"))
 }
+
+struct LoggingWorker(std::sync::Arc<std::sync::Mutex<Vec<u64>>>);
+impl crate::Actor for LoggingWorker {
+    type Msg = WorkerMessage<u64, u64>;
+    type State = ();
+    type Arguments = ();
+    async fn pre_start(&self, _: crate::ActorRef<Self::Msg>, _: ()) -> Result<(), crate::ActorProcessingErr> {
+        Ok(())
+    }
+    async fn handle(&self, _: crate::ActorRef<Self::Msg>, m: Self::Msg, _: &mut ()) -> Result<(), crate::ActorProcessingErr> {
+        if let WorkerMessage::Dispatch(job) = m {
+            self.0.lock().unwrap().push(job.msg);
+        }
+        Ok(())
+    }
+}
+
+fn job_ttl(key: u64, msg: u64, expired: bool) -> Job<u64, u64> {
+    let opts = if expired { JobOptions::new(Some(crate::concurrency::Duration::from_nanos(1))) } else { JobOptions::default() };
+    Job { key, msg, options: opts, accepted: None }
+}
+
+/// One operation of a worker record with full accounting of where every job went. `queue`: (key, expired) of the queued jobs (msg ids 0..),
+/// `curr`: keys in flight; the incoming job of "enqueue:<key>" has msg id 100. Returns "queue=ids;handed=ids;discards=reason:id+..;curr=n".
+pub async fn fates_once(queue: &[(u64, bool)], curr: &[u64], op: &str, mode: &str, limit: usize, worker_dead: bool) -> String {
+    let settings = match mode {
+        "Newest" => WorkerDiscardSettings::Static { limit, mode: DiscardMode::Newest },
+        "Oldest" => WorkerDiscardSettings::Static { limit, mode: DiscardMode::Oldest },
+        _ => WorkerDiscardSettings::None,
+    };
+    let got = std::sync::Arc::new(std::sync::Mutex::new(Vec::new()));
+    let (actor, handle) = crate::Actor::spawn(None, LoggingWorker(got.clone()), ()).await.expect("worker");
+    let mut w = WorkerProperties::new("verif".to_string(), 0, actor, settings, None, handle, None);
+    let rec = std::sync::Arc::new(Recorder(std::sync::Mutex::new(Vec::new())));
+    w.discard_handler = Some(rec.clone());
+    if worker_dead {
+        w.actor.stop(None);
+        if let Some(h) = w.handle.take() {
+            let _ = h.await;
+        }
+    }
+    for (i, (k, e)) in queue.iter().enumerate() {
+        w.message_queue.push_back(job_ttl(*k, i as u64, *e));
+        *w.pending_key_counts.entry(*k).or_default() += 1;
+    }
+    for k in curr {
+        w.curr_jobs.insert(*k, JobOptions::default());
+        *w.pending_key_counts.entry(*k).or_default() += 1;
+    }
+    if queue.iter().any(|x| x.1) {
+        std::thread::sleep(std::time::Duration::from_millis(2));
+    }
+    let got2 = std::sync::Arc::new(std::sync::Mutex::new(Vec::new()));
+    if let Some(k) = op.strip_prefix("enqueue:") {
+        let _ = w.enqueue_job(job(k.parse().unwrap(), 100));
+    } else if let Some(k) = op.strip_prefix("complete:") {
+        let _ = w.worker_complete(k.parse().unwrap());
+    } else if op == "replace" {
+        let (actor, handle) = crate::Actor::spawn(None, LoggingWorker(got2.clone()), ()).await.expect("worker");
+        let _ = w.replace_worker(actor, handle);
+    } else {
+        panic!("unknown op {op}");
+    }
+    for _ in 0..50 {
+        tokio::task::yield_now().await;
+    }
+    let q: Vec<String> = w.message_queue.iter().map(|j| j.msg.to_string()).collect();
+    let mut h: Vec<String> = got.lock().unwrap().iter().map(|x| x.to_string()).collect();
+    h.extend(got2.lock().unwrap().iter().map(|x| x.to_string()));
+    let d: Vec<String> = rec.0.lock().unwrap().iter().map(|(r, m)| format!("{r}:{m}")).collect();
+    format!("queue={};handed={};discards={};curr={}", q.join("+"), h.join("+"), d.join("+"), w.curr_jobs.len())
+}
